@@ -476,6 +476,14 @@ func predC14(c *vk.Ctx, o *ocspObs) {
 		c.Violation(fmt.Sprintf("%s:nu=%s", why, o.Cfg.Nu),
 			fmt.Sprintf("query %s/%s was answered %q from the cache although the specification has no valid entry for this certificate at time %d (lists %v)", e.V, e.C, r.Verdict, nowOf(o), o.Cfg.Lists), rep)
 	}
+	if e.Served == "none" && r.Verdict != e.Verdict && (r.Verdict == "accept" || r.Verdict == "revoked") {
+		// no valid entry and no authentic answer now, yet the verdict is not the one of "no answer": is it the status of an entry
+		// of this certificate whose lifetime has ended (a status used beyond its lifetime, by whatever route)?
+		if st := lastOwnStatus(o); st != "" && (st == "revoked") == (r.Verdict == "revoked") {
+			c.Violation(fmt.Sprintf("expired-status-decides-after-failed-query:nu=%s:status=%s", o.Cfg.Nu, st),
+				fmt.Sprintf("query %s/%s: no responder gave an authentic answer and the entry cached earlier (%s) is past its lifetime at time %d, yet the verdict is %q instead of %q", e.V, e.C, st, nowOf(o), r.Verdict, e.Verdict), rep)
+		}
+	}
 	if e.Served == "none" && r.CacheN > o.CacheN {
 		c.Violation("failed-query-cached", "a query without authentic answer left an item in the cache", rep)
 	}
@@ -522,6 +530,22 @@ func sawOwnEntry(o *ocspObs) bool {
 		}
 	}
 	return false
+}
+
+// lastOwnStatus: the status that the last cached authentic answer for this certificate carried ("" if none was cached).
+func lastOwnStatus(o *ocspObs) string {
+	st := ""
+	for _, s := range o.Hist[:len(o.Hist)-1] {
+		if s.Expect == nil {
+			continue
+		}
+		var e ocspExpect
+		json.Unmarshal(s.Expect, &e)
+		if e.C == o.Exp.C && e.Served == "fresh" && e.CachedLife > 0 {
+			st = e.Status
+		}
+	}
+	return st
 }
 
 func cacheItemsFor(o *ocspObs, cert string) int {
